@@ -5,15 +5,16 @@ CONSTANTS
   DTTLs = {1, 2, 3}
   Keys = {"k1", "k2", "k3"}
   Values = {"a", "b", "c"}
-  TTLs = {1, 2, 3}
+  TTLs = {0, 1, 2, 3}
   Deltas = {1, 2, 3}
   NViews = 3
   PokeTTLs = {1, 2, 3}
   MaxOps = 1000
+  Faults = TRUE
   Full = TRUE
   DetOnly = FALSE
 INIT ScriptInit
 NEXT ScriptNext
 INVARIANTS TypeOK EncodingConsistent KeysWellPlaced EmitScript
-PROPERTIES NeverWrong NeverAfterDelete NeverAfterDeadline NeverCorrupt ReadIsPeek NoAlias AddSemantics ReadYourWrites DeleteRemoves
+PROPERTIES FailedReadIsLocal FailedWriteKeepsBackend NoErrorWithoutFault NeverWrong NeverAfterDelete NeverAfterDeadline NeverCorrupt ReadIsPeek NoAlias AddSemantics ReadYourWrites DeleteRemoves
 CHECK_DEADLOCK FALSE
